@@ -72,11 +72,9 @@ VerdictHD(p, e, s) ==
          First2(Result(e.env, p.cfg, ChildSpec(e.env, p.keys[e.src].k, e.idx), e, s), Frame(p, s, {e.dst}))
     [] e.op = "Neuter" ->
          LET x == NeuterSpec(e.env, p.cfg.hdmap, p.keys[e.src].k) IN
-         First2(First2(Result(e.env, p.cfg, x, e, s),
-                       \* neutering an already-public key is documented to return that same key; the neutered form of a
-                       \* private key is a new object
-                       IF e.ok /\ "same" \in DOMAIN e /\ e.same # ~p.keys[e.src].k.priv
-                         THEN V("neuter-object-identity", ~p.keys[e.src].k.priv, e.same) ELSE OK),
+         \* which OBJECT Neuter returns for an already-public key is not judged: the property excuses the aliasing of
+         \* the documented behaviour (same key returned) and equally allows an independent copy
+         First2(Result(e.env, p.cfg, x, e, s),
                 Frame(p, s, {e.dst}))
     [] e.op = "Parse" ->
          LET x == ParseSpec(e.env, e.s) IN
